@@ -547,7 +547,7 @@ def run_e2e(case):
         finally:
             stats["fault_fired"] = F.FAULT["fired"]
             F.arm()
-        rounds = [("after-aborted-instantiation:", False)] + [("after-aborted-instantiation:", True)] * bool(case.get("reparse"))
+        rounds = [("after-aborted-instantiation:", False), ("after-aborted-instantiation:", True)]
     for pre, reparse in rounds:
         if reparse:
             stats["calls"] += 1
@@ -568,12 +568,6 @@ def run_e2e(case):
             break
         stats["order"] = ">".join(e[0] for e in F.LOG)
     stats["instantiated"] = 1
-    if devs and fault is not None:
-        # A break that a fresh parser shows without any aborted call is not history dependent: report it under its
-        # plain signature, so that "after-aborted-instantiation:" names only what the aborted call left behind.
-        plain, _ = run_e2e({k: v for k, v in case.items() if k not in ("fault", "reparse")})
-        if plain:
-            return plain, stats
     if not devs:
         stats["shapes"] = sorted({link_shape(l) for l in added})
     if devs and tags:
@@ -805,19 +799,20 @@ def fault_plan(k, quick):
         rows += [(kinds, v, 0, "all", "RV" if v in ("whole", "attr+fn") or not quick else "R") for kinds in gsa for v in VARIANTS]
         rows += [(kinds, "whole", 0, "all", "R") for kinds in ("TT", "TS", "GT")]
     elif k == 3 and quick:
-        rows += [("GGG", "whole", 0, "all", "R"), ("GGG", "attr+fn", -1, "all", "R"), ("GGG", "multi", -1, "all", "R")]
+        rows += [("GGG", "whole", -1, "all", "R"), ("GGG", "attr+fn", -1, "all", "R"), ("GGG", "multi", -1, "few", "R")]
         rows += [("GSG", "whole", -1, "few", "R"), ("SGS", "attr+fn", -1, "few", "R")]
     elif k == 3:
         rows += [("GGG", v, 0, "all", "RV") for v in ("whole", "attr+fn", "multi", "mixed")]
-        rows += [(kinds, v, -1, "all", "R") for kinds in ("GSG", "SGS", "SSS", "AAA", "TTT") for v in ("whole", "attr+fn")]
+        rows += [(kinds, v, -1, "all", "R") for kinds in ("GSG", "SGS", "SSS", "AAA") for v in ("whole", "attr+fn")]
+        rows += [("TTT", "whole", -1, "all", "R")]  # class-typed parameters only accept whole objects
     else:
         rows += [("GGGG", "whole", -1, "two", "R")]
     return rows
 
 
 def fault_cases(quick):
-    """Every fault point of every planned acyclic link set (simplest first).  Thorough histories also re-parse."""
-    more = {} if quick else {"reparse": 1}
+    """Every fault point of every planned acyclic link set (simplest first)."""
+    more = {}
     for k in (2, 3) if quick else (2, 3, 4):
         decls = [list(p) for p in itertools.permutations(range(k))]
         few = [d for i, d in enumerate(decls) if i in (0, len(decls) - 1, 9, 14)]
@@ -867,8 +862,73 @@ def run_case(case):
     if case["layer"] == "graph":
         sig, detail, _ = judge_graph(case["n"], [tuple(e) for e in case["edges"]])
         return [{"signature": sig, "detail": detail}] if sig else []
-    devs, _ = run_e2e(case)
+    devs, _ = run_history(case)
     return [{"signature": s, "detail": d} for s, d in devs]
+
+
+_WARM = set()
+
+
+def _plain(case):
+    return {k: v for k, v in case.items() if k != "fault"}
+
+
+def _isolated(cases):
+    """[run_e2e(c) for c in cases] in a forked child of this worker: whatever an aborted call leaves behind in
+    process-wide state (context variables, caches, class attributes) of the implementation dies with the child, so a
+    fault history can never influence a case outside the child; the histories themselves are judged inside the
+    child, where the leftovers are visible."""
+    import os
+    import pickle
+
+    r, w = os.pipe()
+    pid = os.fork()
+    if pid == 0:
+        try:
+            os.close(r)
+            with os.fdopen(w, "wb") as f:
+                pickle.dump([run_e2e(c) for c in cases], f)
+        finally:
+            os._exit(0)
+    os.close(w)
+    with os.fdopen(r, "rb") as f:
+        data = f.read()
+    os.waitpid(pid, 0)
+    return pickle.loads(data)
+
+
+def run_histories(cases):
+    """Fault histories of one shard -> [(deviations, stats)].  First all of them in ONE forked child (cheap); if
+    any deviates, the whole shard is done again with one child PER history, so that every reported witness was
+    observed in a process that had seen no other aborted call and reproduces from a fresh process.  A history is
+    reported under "after-aborted-instantiation:" only when the same case WITHOUT the fault is clean on a fresh
+    parser in the worker itself (which never executes a fault); otherwise the break is not history dependent and
+    keeps its plain signature."""
+    for case in cases:
+        warm = repr((case["layer"], case.get("kinds"), case.get("root"), sorted({link_shape(l) for l in case["links"]})))
+        if warm not in _WARM:  # fill the implementation's caches (signatures, docstrings) in the worker, not in every child
+            _WARM.add(warm)
+            run_e2e(_plain(case))
+    results = _isolated(cases)
+    if any(devs for devs, _ in results):
+        results = [_isolated([case])[0] for case in cases]
+    out = []
+    for case, (devs, stats) in zip(cases, results):
+        if devs:
+            plain, _ = run_e2e(_plain(case))
+            devs = plain or devs
+        out.append((devs, stats))
+    return out
+
+
+def run_history(case):
+    """Replay of one case in a fresh process: for a fault history the plain comparison first, then the history -
+    the same two observations as in run_histories, in an equally clean order."""
+    if "fault" in case:
+        plain, stats = run_e2e(_plain(case))
+        if plain:
+            return plain, stats
+    return run_e2e(case)
 
 
 def e2e_worker(cases):
@@ -877,8 +937,9 @@ def e2e_worker(cases):
     out["orders"], out["shapes"] = set(), set()
     out["aborted"] = out["aborted_late"] = out["fault_fired"] = out["fault_histories"] = 0
     F = _fx()
-    for case in cases:
-        devs, stats = run_e2e(case)
+    faulty = [c for c in cases if "fault" in c]
+    results = [(c, run_e2e(c)) for c in cases if "fault" not in c] + (list(zip(faulty, run_histories(faulty))) if faulty else [])
+    for case, (devs, stats) in results:
         out["fault_histories"] += "fault" in case
         for k in ("aborted", "aborted_late", "fault_fired"):
             out[k] += stats.get(k, 0)
@@ -994,7 +1055,7 @@ def explore(ctx):
     ctx.require(fam["dag"]["expect_refuse"] > 100, "dag family: > 100 cycle-closing links to refuse")
     ctx.require(fam["hier"]["expect_instantiate"] - fam["hier"]["flagged"] > 300, "hier family: > 300 acyclic link sets of un-flagged shape")
     ctx.require(fam["within"]["expect_instantiate"] > 100 and fam["within"]["expect_refuse"] > 100, "within family: > 100 acyclic and > 100 cyclic link sets")
-    ctx.require(fam["faults"]["fault_histories"] > 2000 and fam["faults"]["fault_histories"] == fam["faults"]["cases"], "faults family: > 2000 histories with an aborted instantiation")
+    ctx.require(fam["faults"]["fault_histories"] > 1500 and fam["faults"]["fault_histories"] == fam["faults"]["cases"], "faults family: > 1500 histories with an aborted instantiation")
     # guards on what the implementation was seen doing: they protect a PASS verdict only.  When the run reports a
     # violation anyway (a deviation that is not a known finding) they are moot and must not turn it into exit 2.
     from mc.core import load_known
@@ -1011,7 +1072,7 @@ def explore(ctx):
         ctx.require(fam["hier"]["instantiated"] - fam["hier"]["flagged"] > 300, "hier family instantiated > 300 parsers of un-flagged shape")
         ctx.require(fam["within"]["instantiated"] > 100, "within family instantiated > 100 parsers")
         ctx.require(
-            fam["faults"]["fault_fired"] == fam["faults"]["fault_histories"] and fam["faults"]["aborted"] > 2000,
-            "faults family: every armed fault point was reached and > 2000 first instantiations were aborted by it",
+            fam["faults"]["fault_fired"] == fam["faults"]["fault_histories"] and fam["faults"]["aborted"] > 1500,
+            "faults family: every armed fault point was reached and > 1500 first instantiations were aborted by it",
         )
         ctx.require(fam["faults"]["aborted_late"] > 1000, "faults family: > 1000 instantiations aborted after at least one class had been constructed")
